@@ -137,6 +137,64 @@ func c08Run(r *Run) {
 		return u
 	}
 
+	// repeatedViaHelpers: the declaration-interface methods read by package functions that f calls from
+	// inside a loop, or anywhere when f is recursive (the reads happen once per level of the walk)
+	repeatedViaHelpers := func(p *packages.Package, f *ast.FuncDecl) map[string]bool {
+		info := p.TypesInfo
+		out := map[string]bool{}
+		byObj := map[types.Object]*ast.FuncDecl{}
+		for _, fd := range funcDecls(p) {
+			byObj[info.Defs[fd.Name]] = fd
+		}
+		self := info.Defs[f.Name]
+		recursive := false
+		ast.Inspect(f.Body, func(n ast.Node) bool {
+			if c, ok := n.(*ast.CallExpr); ok && calleeOf(info, c) == self {
+				recursive = true
+			}
+			return true
+		})
+		note := func(g *ast.FuncDecl) {
+			for _, h := range closure(p, g) {
+				if h == f {
+					continue
+				}
+				for _, nm := range []string{"GetImplements", "GetExtend", "GetExtends"} {
+					if calls(p, h, nm).any {
+						out[nm] = true
+					}
+				}
+			}
+		}
+		var walk func(n ast.Node, inLoop bool)
+		walk = func(n ast.Node, inLoop bool) {
+			ast.Inspect(n, func(m ast.Node) bool {
+				if m == n {
+					return true
+				}
+				switch x := m.(type) {
+				case *ast.ForStmt:
+					walk(x.Body, true)
+					if x.Cond != nil {
+						walk(x.Cond, true)
+					}
+					return false
+				case *ast.RangeStmt:
+					walk(x.Body, true)
+					return false
+				case *ast.CallExpr:
+					if inLoop || recursive {
+						if g := byObj[calleeOf(info, x)]; g != nil && g != f {
+							note(g)
+						}
+					}
+				}
+				return true
+			})
+		}
+		walk(f.Body, false)
+		return out
+	}
 	r.curRule = "C08-EDGES"
 	// decision entry points: the two named roots (the declared-type test and the instanceof test) and,
 	// found from the code, every bool-answering function in their call closure that itself steps along
@@ -194,6 +252,11 @@ func c08Run(r *Run) {
 			}
 			if calls(e.p, f, "GetExtends").repeated {
 				ifaceParents = true
+			}
+			// the walk may be split over helpers: a loop (or recursion) in f that calls one helper reading
+			// this level's implements list and another stepping to the parent
+			if reads := repeatedViaHelpers(e.p, f); reads["GetImplements"] && (reads["GetExtend"] || ue.any) {
+				implAnc = true
 			}
 		}
 		// a negative answer only after the walk is exhausted: no `return false` inside an edge-walking loop
